@@ -444,6 +444,85 @@ Fixpoint add_lines (g : grammar) (st : cstate) (lines : list str) : res cstate :
   | l :: r => do st' <- add_line g st l; add_lines g st' r
   end.
 
+(* ------------------------------------------------- files and .include -- *)
+(* NetfileMixin.netfile_add / _netfile_add / _include.  The file system is a parameter
+   [fs : file name -> lines] (the worker writes the same files to disk).  _include:
+   match(r'(\.include)\s+(.+?)\s+(as)\s+(\w+)', string); the new namespace is
+   name + '.' + current namespace (inner name FIRST - kept as in the code). *)
+Definition is_word (a : ascii) : bool := is_alnum a || aeqb a (ch 95).
+Fixpoint drop_while (f : ascii -> bool) (s : str) : str :=
+  match s with a :: r => if f a then drop_while f r else s | [] => [] end.
+(* tail matches  \s+as\s+(\w+)  at its start: the word *)
+Definition match_as (tail : str) : option str :=
+  match tail with
+  | a :: _ =>
+      if is_space a then
+        let t1 := drop_while is_space tail in
+        if starts_with (s2l "as") t1 then
+          match skipn 2 t1 with
+          | b :: t2 => if is_space b then
+                         let w := take_while is_word (drop_while is_space (b :: t2)) in
+                         if is_nil w then None else Some w
+                       else None
+          | [] => None
+          end
+        else None
+      else None
+  | [] => None
+  end.
+(* the non-greedy (.+?): shortest non-empty prefix whose rest matches *)
+Fixpoint scan_include (pre : str) (rest : str) : option (str * str) :=
+  match rest with
+  | [] => None
+  | c :: r => match match_as r with
+              | Some w => Some (pre ++ [c], w)
+              | None => scan_include (pre ++ [c]) r
+              end
+  end.
+Definition parse_include (s : str) : option (str * str) :=
+  scan_include [] (drop_while is_space (skipn 8 s)).
+(* open(pathname), then open(pathname + '.sch') *)
+Definition fs_open (fs : list (str * list str)) (path : str) : option (list str) :=
+  match assoc_get path fs with
+  | Some l => Some l
+  | None => assoc_get (path ++ s2l ".sch") fs
+  end.
+(* NetfileMixin._add / _parse with a namespace; [fuel] bounds the nesting of includes *)
+Fixpoint add_lines_ns (fuel : nat) (g : grammar) (fs : list (str * list str)) (ns : str) {struct fuel}
+  : cstate -> list str -> res cstate :=
+  fix go (st : cstate) (lines : list str) {struct lines} : res cstate :=
+  match lines with
+  | [] => Ok st
+  | line :: rest =>
+      let s := strip line in
+      let s := if starts_with S_dots s then strip (skipn 3 s) else s in
+      do st1 <-
+        (if starts_with S_include s then
+           match fuel with
+           | O => Err EInclude
+           | S f =>
+               match parse_include s with
+               | Some (file, name) =>
+                   match fs_open fs file with
+                   | Some ls => add_lines_ns f g fs (name ++ [DOT] ++ ns) st ls
+                   | None => Err EInclude
+                   end
+               | None => Err EInclude
+               end
+           end
+         else
+           do x <- parse g st ns s;
+           let '(c, st') := x in
+           Ok {| elements := assoc_set (c_name c) c (elements st'); gen_names := gen_names st' |});
+      go st1 rest
+  end.
+(* Circuit(filename) = netfile_add(filename) *)
+Definition run_file (g : grammar) (fs : list (str * list str)) (path : str) : res cstate :=
+  match fs_open fs path with
+  | Some ls => add_lines_ns 8 g fs [] st0 ls
+  | None => Err EInclude
+  end.
+
 (* ---------------------------------------------------------------- print -- *)
 (* Cpt._arg_format *)
 Definition has_delim (ds : str) (s : str) : bool := existsb (fun d => mem d s) ds.
@@ -579,6 +658,16 @@ Definition obs_ok (g : grammar) (lines : list str) (exp : list cpt) (printed : l
              && str_eqb (print_netlist (g_delims g) st) text
   | Err _ => false
   end.
+(* Circuit(filename) with the files [fs] on disk *)
+Definition obs_file (g : grammar) (fs : list (str * list str)) (path : str) (exp : list cpt) (printed : list str) (text : str) : bool :=
+  match run_file g fs path with
+  | Ok st => list_eqb cpt_eqb (map snd (elements st)) exp
+             && list_eqb str_eqb (map (fun kv => print_cpt (g_delims g) (snd kv)) (elements st)) printed
+             && str_eqb (print_netlist (g_delims g) st) text
+  | Err _ => false
+  end.
+Definition obs_file_err (g : grammar) (fs : list (str * list str)) (path : str) (e : err) : bool :=
+  match run_file g fs path with Err e' => err_eqb e e' | Ok _ => false end.
 (* the real code raised error [e] at line number [k] *)
 Definition obs_err (g : grammar) (lines : list str) (k : nat) (e : err) : bool :=
   match add_lines g st0 (firstn k lines), add_lines g st0 (firstn (S k) lines) with
